@@ -349,6 +349,41 @@ def random_module(rng: random.Random, max_claims=6, with_imports=True, syms=SYMS
                     tags.add('quantifier_with_fresh_declaring_plug')
         except AssertionError:
             pass
+    if rng.random() < 0.12:
+        # a proof step that talks to the interpreter directly, the way the Metamath translator and the deserialiser do: the notation node
+        # is made by instantiate_pattern(definition, {..}) with an ordinary dict (plugs first, then the definition), then plugged into a schema
+        try:
+            N = rng.choice((P.neg, P._and, P._or, P.equiv))
+            args = [p_() for _ in range(N.arity)]
+            keys = list(range(N.arity))
+            rng.shuffle(keys)
+            base = rng.choice((prop.imp_refl(), mod.prop1(), mod.prop3()))
+
+            def direct(interpreter, N=N, args=args, keys=keys, base=base):
+                built = {k: interpreter.pattern(args[k]) for k in keys}
+                node = interpreter.instantiate_pattern(interpreter.pattern(N.definition), built)
+                return interpreter.instantiate(base(interpreter), {0: node})
+            conc = base.conc.instantiate({0: N(*args)})
+            if admissible_inst(base.conc, {0: N(*args)}):
+                add(PR.ProofThunk(direct, conc), f'inst(schema, 0 := {N.label} built through instantiate_pattern with a plain dict, keys={keys})')
+                tags.add('direct_instantiate_pattern_plain_dict')
+        except AssertionError:
+            pass
+    if rng.random() < 0.15:
+        # a plug that IS a notation node listing its parameters out of order (what filling the open parameter of a partial application
+        # leaves behind): dynamic_inst hands such plugs to the interpreter and keeps what it gets back
+        try:
+            from frozendict import frozendict
+            N = rng.choice((P._and, P._or, P.equiv))
+            a0, a1 = p_(), p_()
+            node = P.Instantiate(N.definition, frozendict({1: a1})).instantiate({0: a0})
+            base = rng.choice((mod.prop1(), prop.imp_refl(), mod.prop2()))
+            k_ = rng.choice(sorted(base.conc.metavars()))
+            if admissible_inst(base.conc, {k_: node}):
+                add(mod.dynamic_inst(base, {k_: node}), f'dynamic_inst(schema, {k_} := {N.label} node with keys {list(node.inst)})')
+                tags.add('dynamic_inst_plug_is_unsorted_notation_node')
+        except AssertionError:
+            pass
     # a schema instantiated through a map whose keys are inserted in shuffled order
     if rng.random() < 0.5:
         try:
